@@ -39,6 +39,13 @@ UnexpectedText(expected, found) == <<"expected ">> \o Disjunction(expected) \o <
 \* Mapped<T> displays as its value and names it as its source
 MappedText(t) == t
 
+\* errors of the serde layer: a custom message (what serde's `Error::custom` was given) displays verbatim
+\* e.variant \in {"custom", "non_string_key", "malformed_number"} ("malformed_number": serializer only)
+SerdeErrorText(e) ==
+  CASE e.variant = "custom" -> e.msg
+    [] e.variant = "non_string_key" -> <<"key must be a string">>
+    [] e.variant = "malformed_number" -> <<"malformed high-precision number">>
+
 \* duplicate entry: the key, raw (no JSON escaping), between backquotes
 DuplicateEntryText(key) == <<"duplicate entry `">> \o key \o <<"`">>
 =============================================================================
